@@ -89,6 +89,9 @@ def check(case):
                 while obj.load_factor < 0.85 and i < 200:
                     obj.add("fill-%d-%d" % (case["seed"] % 97, i))
                     i += 1
+            if case.get("twist") and kind in ("expanding", "rotating"):
+                obj.push()
+                obj.push()  # two never-written filters at the end of the queue
             if case.get("twist"):
                 if kind in ("bloom", "cbf"):
                     got = sparse_result(make, tag=str(case["seed"] % 7))
